@@ -307,13 +307,14 @@ where
         let two = one + one;
         let mut squared_coefficients = vec![zero; squared_coefficient_len];
 
-        for i in 0..self.coefficients.len() {
-            let ci = self.coefficients[i];
+        let coefficients = self.coefficients();
+        for i in 0..coefficients.len() {
+            let ci = coefficients[i];
             squared_coefficients[2 * i] += ci * ci;
 
             // TODO: Review.
-            for j in i + 1..self.coefficients.len() {
-                let cj = self.coefficients[j];
+            for j in i + 1..coefficients.len() {
+                let cj = coefficients[j];
                 squared_coefficients[i + j] += two * ci * cj;
             }
         }
@@ -719,12 +720,13 @@ where
         let mut squared_coefficients = vec![zero; squared_coefficient_len];
 
         // TODO: Review.
-        for i in 0..self.coefficients.len() {
-            let ci = self.coefficients[i];
+        let coefficients = self.coefficients();
+        for i in 0..coefficients.len() {
+            let ci = coefficients[i];
             squared_coefficients[2 * i] += ci * ci;
 
-            for j in i + 1..self.coefficients.len() {
-                let cj = self.coefficients[j];
+            for j in i + 1..coefficients.len() {
+                let cj = coefficients[j];
                 squared_coefficients[i + j] += two * ci * cj;
             }
         }
